@@ -1,0 +1,14 @@
+//go:build verif
+
+package calculator
+
+// Add-only accessors for the external verification harness (/verif). No behaviour.
+
+// VerifPRepInfo returns the PRepInfo an IISS4 reward calculation built (nil before
+// loadPRepInfo has run or for another calculator type).
+func VerifPRepInfo(rc RewardCalculator) *PRepInfo {
+	if r, ok := rc.(*iiss4Reward); ok {
+		return r.pi
+	}
+	return nil
+}
